@@ -260,6 +260,61 @@ func runC13(c *core.Ctx, o Options) {
 			})
 		}
 	}
+	// Z2 (scope): a goroutine of one accepted connection that watches a context watches that connection's own — the one derived in
+	// Acceptor.serve and cancelled by every sibling when it ends — not the acceptor-wide context serve was given: such a goroutine
+	// outlives its connection until the whole acceptor is closed (and keeps serve from returning)
+	{
+		nDone := 0
+		// what runs on behalf of one accepted connection: Acceptor.serve, its literals and what they call in the module
+		perConn := map[*ssa.Function]bool{}
+		if sv := c.Func("", "Acceptor.serve"); sv != nil {
+			work := an.WithAnon(sv)
+			for len(work) > 0 {
+				f := work[0]
+				work = work[1:]
+				if perConn[f] || len(f.Blocks) == 0 {
+					continue
+				}
+				perConn[f] = true
+				work = append(work, f.AnonFuncs...)
+				an.AllInstrs(f, func(in ssa.Instruction) {
+					if cc := an.CallOf(in); cc != nil {
+						if cal := an.StaticCallee(cc); cal != nil && cal.Pkg != nil && strings.HasPrefix(cal.Pkg.Pkg.Path(), core.ModPath) {
+							work = append(work, cal)
+						}
+					}
+				})
+			}
+		}
+		for _, fn := range lib {
+			an.AllInstrs(fn, func(in ssa.Instruction) {
+				sel, ok := in.(*ssa.Select)
+				if !ok {
+					return
+				}
+				for _, st := range sel.States {
+					if st.Dir != 2 || doneContext(st.Chan) == "" {
+						continue
+					}
+					nDone++
+					if !perConn[fn] {
+						continue
+					}
+					call := st.Chan.(*ssa.Call)
+					wide := ""
+					for _, o := range ctxOrigins(call.Call.Value, lib, 0, map[ssa.Value]bool{}) {
+						if o == "param:(*Acceptor).serve" || o == "field:Acceptor" {
+							wide = o
+						}
+					}
+					if wide != "" {
+						c.Ob("Z2", an.NameOf(fn), "a per-connection goroutine watches the connection's own context", sel.Pos()).Fail("the loop in %s ends on %s.Done(), which (at one of its call sites) is the acceptor-wide context (%s), not the context of the connection: after the connection has ended the goroutine stays until the acceptor is closed, and Acceptor.serve does not return", an.NameOf(fn), an.Render(call.Call.Value), wide)
+					}
+				}
+			})
+		}
+		c.Check(nDone >= 6, "Z2", "", "context-governed select cases found", token.NoPos, fmt.Sprint(nDone), fmt.Sprintf("only %d select cases on a context's Done() found", nDone))
+	}
 	// ---- Z3 + Z5
 	checkCloseChain(c, "Z3")
 	checkAcceptedOwned(c, "Z3", lib)
@@ -287,7 +342,36 @@ func runC13(c *core.Ctx, o Options) {
 	}
 	// ---- Z7a lock order
 	checkLockOrder(c, "Z7", fns)
-	c.RuleMin = map[string]int{"Z1": 5, "Z2": 16, "Z3": 5, "Z4": 6, "Z5": 4, "Z6": 4, "Z7": 4}
+	// Z8: no function of the library returns with a mutex it has taken still locked (an early return past an explicit Unlock):
+	// every later Send, Stop or state read would block for ever
+	{
+		nLock := 0
+		for _, fn := range libFuncs(c) {
+			takes := false
+			an.AllInstrs(fn, func(in ssa.Instruction) {
+				if cc := an.CallOf(in); cc != nil {
+					if _, op, ok := an.LockOp(cc); ok && (op == "Lock" || op == "RLock") {
+						takes = true
+					}
+				}
+			})
+			if !takes {
+				continue
+			}
+			nLock++
+			held := an.HeldAtReturn(fn)
+			ob := c.Ob("Z8", an.NameOf(fn), "every mutex taken is released on every return", fn.Pos())
+			if len(held) == 0 {
+				ob.Ok("balanced on every returning path")
+			} else {
+				k := an.SortedKeys(held)[0]
+				ob.Fail("%s returns with %s still locked under [%s]: the next caller that needs the mutex blocks for ever", an.NameOf(fn), k, held[k])
+			}
+		}
+		c.Check(nLock >= 15, "Z8", "", "locking functions found", token.NoPos, fmt.Sprint(nLock), fmt.Sprintf("only %d functions that take a mutex found", nLock))
+	}
+	c.Explanation += " Z2 also: a select case on a context's Done() in anything that runs on behalf of one accepted connection watches a context derived in Acceptor.serve (or held by a per-connection object), not the acceptor-wide context serve was given — followed through helper parameters to all call sites. Z8: no function returns with a mutex it has taken still locked (every returning path is replayed over the lock operations, deferred unlocks included)."
+	c.RuleMin = map[string]int{"Z1": 5, "Z2": 16, "Z3": 5, "Z4": 6, "Z5": 4, "Z6": 4, "Z7": 4, "Z8": 15}
 	c.MinObl = 45
 }
 
@@ -1105,4 +1189,123 @@ func checkAcceptedOwned(c *core.Ctx, rule string, lib []*ssa.Function) {
 		c.Check(bad == "" && nOK > 0, rule, an.NameOf(fn), "an accepted socket is always served or closed", acc.Pos(), fmt.Sprintf("%d success path(s) hand the socket on", nOK), bad)
 	}
 	c.Check(n >= 1, rule, "", "Accept call found", token.NoPos, fmt.Sprint(n), "no net.Listener.Accept call in the library (anchor moved)")
+}
+
+// ctxOrigins describes where a context value comes from: "derived:<fn>" (context.WithCancel/WithTimeout/… in fn),
+// "field:<Type>" (loaded from a struct field), "param:<fn>" (a parameter of an exported or pinned function) — a parameter of a
+// helper is followed to the arguments at all of its call sites, a captured variable to what was stored in it.
+func ctxOrigins(v ssa.Value, lib []*ssa.Function, depth int, seen map[ssa.Value]bool) []string {
+	if v == nil || seen[v] || depth > 6 {
+		return nil
+	}
+	seen[v] = true
+	switch x := v.(type) {
+	case *ssa.Extract:
+		if call, ok := x.Tuple.(*ssa.Call); ok {
+			if cal := an.StaticCallee(&call.Call); cal != nil && cal.Pkg != nil && cal.Pkg.Pkg.Path() == "context" {
+				return []string{"derived:" + fnLabel(call.Parent())}
+			}
+		}
+	case *ssa.Call:
+		if cal := an.StaticCallee(&x.Call); cal != nil && cal.Pkg != nil && cal.Pkg.Pkg.Path() == "context" {
+			return []string{"derived:" + fnLabel(x.Parent())}
+		}
+		if x.Call.IsInvoke() {
+			return []string{"method:" + x.Call.Method.Name()}
+		}
+		if cal := an.StaticCallee(&x.Call); cal != nil && len(cal.Blocks) > 0 {
+			var out []string
+			an.AllInstrs(cal, func(in ssa.Instruction) {
+				if r, ok := in.(*ssa.Return); ok && len(r.Results) > 0 {
+					out = append(out, ctxOrigins(r.Results[0], lib, depth+1, seen)...)
+				}
+			})
+			return out
+		}
+	case *ssa.UnOp:
+		if x.Op == token.MUL {
+			switch a := x.X.(type) {
+			case *ssa.FieldAddr:
+				if n := an.NamedOf(an.Deref(a.X.Type())); n != nil {
+					return []string{"field:" + an.PinnedTypeName(n.Obj().Pkg(), n.Obj().Name())}
+				}
+				return []string{"field:?"}
+			case *ssa.Alloc:
+				var out []string
+				for _, sv := range an.CellStores(a) {
+					out = append(out, ctxOrigins(sv, lib, depth+1, seen)...)
+				}
+				return out
+			case *ssa.FreeVar:
+				if b := an.FreeVarBinding(a); b != nil {
+					if al, ok := b.(*ssa.Alloc); ok {
+						var out []string
+						for _, sv := range an.CellStores(al) {
+							out = append(out, ctxOrigins(sv, lib, depth+1, seen)...)
+						}
+						return out
+					}
+					return ctxOrigins(b, lib, depth+1, seen)
+				}
+			}
+		}
+	case *ssa.FreeVar:
+		if b := an.FreeVarBinding(x); b != nil {
+			return ctxOrigins(b, lib, depth+1, seen)
+		}
+	case *ssa.Phi:
+		var out []string
+		for _, e := range x.Edges {
+			out = append(out, ctxOrigins(e, lib, depth+1, seen)...)
+		}
+		return out
+	case *ssa.MakeInterface:
+		return ctxOrigins(x.X, lib, depth+1, seen)
+	case *ssa.ChangeInterface:
+		return ctxOrigins(x.X, lib, depth+1, seen)
+	case *ssa.Parameter:
+		fn := x.Parent()
+		if fn.Object() != nil && !fn.Object().Exported() && !an.IsKnown(fn) {
+			idx := -1
+			for i, p := range fn.Params {
+				if p == x {
+					idx = i
+				}
+			}
+			var out []string
+			n := 0
+			for _, caller := range lib {
+				an.AllInstrs(caller, func(in ssa.Instruction) {
+					if cc := an.CallOf(in); cc != nil && an.StaticCallee(cc) == fn && idx >= 0 && idx < len(cc.Args) {
+						n++
+						out = append(out, ctxOrigins(cc.Args[idx], lib, depth+1, seen)...)
+					}
+				})
+			}
+			if n > 0 {
+				return out
+			}
+		}
+		return []string{"param:" + fnLabel(fn)}
+	}
+	return []string{"unknown"}
+}
+
+func fnLabel(fn *ssa.Function) string {
+	for fn != nil && fn.Parent() != nil {
+		fn = fn.Parent()
+	}
+	if fn == nil {
+		return "?"
+	}
+	if sig := fn.Signature; sig.Recv() != nil {
+		if n := an.NamedOf(an.Deref(sig.Recv().Type())); n != nil {
+			ptr := ""
+			if _, isPtr := sig.Recv().Type().(*types.Pointer); isPtr {
+				ptr = "*"
+			}
+			return "(" + ptr + an.PinnedTypeName(n.Obj().Pkg(), n.Obj().Name()) + ")." + an.NameOf(fn)
+		}
+	}
+	return an.NameOf(fn)
 }
